@@ -137,8 +137,10 @@ AddGroup(bs, sh) ==
         consistent == \/ bs1.marker = -1
                       \/ (i < bs1.marker /\ ~sh.last)
                       \/ (i = bs1.marker /\ sh.last)
+        \* a last marker below a slice already accepted contradicts it (rule of fix 9934741, as in Blockstore / ShredAuth)
+        laterKnown == bs1.marker = -1 /\ sh.last /\ \E k \in SliceIdx : k > i /\ bs1.cm[k] # NoCm
     IN
-    IF ~consistent THEN AddRes(bs1, "equiv", "-")
+    IF laterKnown \/ ~consistent THEN AddRes(bs1, "equiv", "-")
     ELSE
       LET bs2 == IF bs1.marker = -1 /\ sh.last THEN MarkLast(bs1, i) ELSE bs1 IN
       IF sh.g \in bs2.sh[i] THEN AddRes(bs2, "dup", "-")
